@@ -231,7 +231,8 @@ Proof.
         -- rewrite (IH _ _ _ _ _ _ H), Hev by reflexivity. lia.
         -- rewrite (IH _ _ _ _ _ _ H), Hw. lia.
         -- rewrite (IH _ _ _ _ _ _ H), Hev by reflexivity. lia.
-      * rewrite (IH _ _ _ _ _ _ H), Hev by reflexivity. lia.
+      * destruct (negb (forallb (slot_known (nodes s)) (sl0 :: sls)));
+          rewrite (IH _ _ _ _ _ _ H), Hev by reflexivity; lia.
       * destruct (try_allocation c s t) as [s1 res]. destruct res.
         -- rewrite (IH _ _ _ _ _ _ H), Hev by reflexivity. lia.
         -- rewrite (IH _ _ _ _ _ _ H), Hw. lia.
@@ -367,7 +368,8 @@ Proof.
     destruct (r_slots t) as [[|sl0 sls]|].
     + destruct (try_allocation c s t) as [s1 res] eqn:Et. destruct (try_allocation_frame _ _ _ _ _ Et) as [F1 F2].
       destruct res; destruct (IH _ _ _ _ _ _ H) as [G1 G2]; split; congruence.
-    + destruct (IH _ _ _ _ _ _ H) as [G1 G2]. split; [rewrite G1|rewrite G2]; reflexivity.
+    + destruct (negb (forallb (slot_known (nodes s)) (sl0 :: sls))); [eapply IH; eauto|].
+      destruct (IH _ _ _ _ _ _ H) as [G1 G2]. split; [rewrite G1|rewrite G2]; reflexivity.
     + destruct (try_allocation c s t) as [s1 res] eqn:Et. destruct (try_allocation_frame _ _ _ _ _ Et) as [F1 F2].
       destruct res; destruct (IH _ _ _ _ _ _ H) as [G1 G2]; split; congruence.
 Qed.
